@@ -95,6 +95,22 @@ func treeAlphabet(r *Rng, t *Tree, extra []File) []Op {
 		Op{Kind: "evalstr", Src: "@each(x in nums){{ 100 / x }},@end", Data: mk([]string{"nums"}, Val{T: "ints", A: []Val{VInt(4), VInt(0)}})},
 		Op{Kind: "evalstr", Src: "@each(x in nums){{ 100 / x }},@end", Data: mk([]string{"nums"}, Val{T: "ints", A: []Val{VInt(1), VInt(2)}})},
 	)
+	// data-less calls that assign top-level variables (a shared root scope would leak them)
+	ops = append(ops,
+		Op{Kind: "evalstr", Src: "{{ shared = 1 }}{{ shared }}", Data: nil},
+		Op{Kind: "evalstr", Src: "{{ shared }}", Data: nil},
+		Op{Kind: "evalstr", Src: `{{ shared = "s" }}{{ title = "t" }}{{ shared }}`, Data: nil},
+		Op{Kind: "string", Name: "assigner", Data: nil},
+		Op{Kind: "string", Name: "reader", Data: nil},
+	)
+	// float counters and postfix operators on literals, rendered repeatedly
+	ops = append(ops, Op{Kind: "string", Name: "floaty", Data: nil}, Op{Kind: "evalstr", Src: "{{ q = 4.5 }}{{ q-- }}|{{ q }}", Data: nil})
+	// a custom array function that works in place, on the caller's own []any
+	ops = append(ops,
+		Op{Kind: "evalstr", Src: "{{ xs.rev() }}|{{ xs }}", Data: mk([]string{"xs"}, Val{T: "arr", A: []Val{VInt(3), VInt(1), VInt(2)}})},
+		Op{Kind: "string", Name: "revpage", Data: mk([]string{"xs"}, Val{T: "arr", A: []Val{VStr("a"), VStr("b"), VStr("c")}})},
+		Op{Kind: "evalstr", Src: "{{ xs.shuffle().len() }}{{ xs.reverse() }}{{ xs.prepend(0) }}|{{ xs }}", Data: mk([]string{"xs"}, Val{T: "arr", A: []Val{VInt(1), VInt(2), VInt(3)}})},
+	)
 	ops = append(ops,
 		Op{Kind: "string", Name: "dotpage", Data: mk([]string{"user"}, Val{T: "struct", K: []string{"Name", "Age"}, V: []Val{VStr("Ann"), VInt(30)}})},
 		Op{Kind: "string", Name: "dotpage", Data: mk([]string{"user"}, Val{T: "map", K: []string{"name", "age"}, V: []Val{VStr("Bob"), VInt(41)}})},
@@ -124,13 +140,17 @@ func genC16Tree(r *Rng) (*Scenario, *Tree, []Op) {
 		File{Path: t.path("loopy"), Data: "<ul>@each(x in nums)<li>{{ 100 / x }}</li>@end</ul>\n@for(i = 0; i < lim; i++)[{{ 60 / (k - i) }}]@end", Role: "page"},
 		File{Path: t.path("dotpage"), Data: "<p>{{ user.name }}/{{ user.age }}</p>", Role: "page"},
 		File{Path: t.path("rowpage"), Data: "<p>{{ r.num }}:{{ r.title }}</p>", Role: "page"},
+		File{Path: t.path("assigner"), Data: "{{ title = \"Oops\" }}{{ count = 7 }}<i>{{ title }}</i>", Role: "page"},
+		File{Path: t.path("reader"), Data: "<u>{{ title }}{{ count }}</u>", Role: "page"},
+		File{Path: t.path("floaty"), Data: "@for(f = 2.0; f > 0.0; f--)[{{ f }}]@end{{ base = 9.5 }}{{ base-- }}|{{ n = 3 }}{{ n++ }}|{{ g = 1.5 }}{{ g++ }}", Role: "page"},
+		File{Path: t.path("revpage"), Data: "<p>{{ xs.rev() }}</p><p>{{ xs }}</p>", Role: "page"},
 	)
 	bad := File{Path: t.Cwd + "/other/eio.txt", Data: "x", ReadErr: "EIO", Role: "other"}
 	sc.Files = append(sc.Files, bad)
 	sc.Setup = []Op{
 		{Kind: "register", Recv: "str", Name: "shout", Fn: 3},
 		{Kind: "register", Recv: "bool", Name: "flip", Fn: 0},
-		{Kind: "register", Recv: "arr", Name: "rev", Fn: 0},
+		{Kind: "register", Recv: "arr", Name: "rev", Fn: 4},
 		t.LoadOp(),
 	}
 	return sc, t, treeAlphabet(r, t, []File{bad})
@@ -196,6 +216,12 @@ func c16RunHistory(sc *Scenario, ops []Op, base map[string]Obs, acc *Acc) c16Res
 		if acc != nil {
 			acc.Evals++
 			acc.Steps += o.Steps
+		}
+		if o.Mut != "" {
+			// judged absolutely, not against the baseline (which would be mutated the same way)
+			exp := o
+			exp.Mut = ""
+			return c16Result{idx: i, got: o, exp: exp}
 		}
 		if exp := base[opKey(op)]; o.Key() != exp.Key() {
 			return c16Result{idx: i, got: o, exp: exp}
